@@ -87,3 +87,8 @@ CLAIMS["C19"] = {
     "note": "Relies on C05/C06 for the bucket and registry; histogram values are unique per run so membership is unambiguous.",
     "technique": "runtime monitoring: reference snapshot model per history; exactly-once interval oracle over concurrent record vs snapshot histories; Miri",
 }
+CLAIMS["C17"] = {
+    "text": "Exploration: thousands of span-tree scripts (nesting, explicit and root parents, late record(), shared field names across levels, all value types, several threads with different current spans under one subscriber) with ~100k emissions per quick run; each key reaching the inner recorder is compared with a reference label model under include-all, allow-list and custom filters.",
+    "note": "Span shapes are a compiled family (tracing needs static callsites); field-name collisions across levels are deliberate.",
+    "technique": "runtime monitoring: logging recorder beneath TracingContextLayer, compared per emission with a reference span-label model over generated span scripts",
+}
